@@ -5,6 +5,12 @@ HERE = os.path.dirname(os.path.dirname(os.path.abspath(__file__)))
 ALL = ["C%02d" % i for i in range(1, 21)]
 
 CHECKS = {
+ "C05": dict(
+   level="exploration",
+   technique="runtime monitoring of the real matching engine on generated crossing order books with fill-counting orders (observed fills), exact big.Int/big.Rat conservation and limit oracles; in-situ balance laws around ExecuteRequests",
+   text="About 24k generated books per quick run (0-40 orders per side on 1-6 adjacent ticks, amounts 1..10^30, tick precision 1-4, with/without last price, basic and ranged pool orders from the real PoolOrders) go through FindMatchPrice / MatchAtSinglePrice / Match; the harness's own amm.Order implementation counts individual fills; base conservation, quote dust in [0, #fills), per-order offer/amount/limit-price bounds and strictly positive receipts are decided exactly. A second part places real orders by transactions and checks balance-level laws around batch execution.",
+   note="Per-fill tolerances are checked in the pure part only; in situ only balance-level laws (individual fills are not observable there). Buy orders whose offer coin is below price*amount are unreachable through message validation and not generated.",
+   design="§4 C05"),
  "C01": dict(
    level="exploration",
    technique="runtime invariant monitor at quiescent points (after every delivered tx and every block) over a seeded hostile CDP workload; shadow set of vaults awaiting auction settlement",
